@@ -198,7 +198,15 @@ def main(argv):
             if vac:
                 undecided.append('unit %s: vacuity canary: contradictory precondition (assert(false) verified) in %s; other errors of the canary run: %s' % (un, vac, can['other_errors']))
                 continue
-            trusted += ['%s: %s %s' % (un, k, n) for k, n in u.trusted]
+            imp = {}
+            for k, n in u.trusted:
+                if k.startswith('imported-contract['):
+                    imp.setdefault(k[len('imported-contract['):-1], []).append(n)
+                else:
+                    trusted.append('%s: %s %s' % (un, k, n))
+            for src_unit, names in imp.items():
+                trusted.append('%s: %d function contracts imported from unit %s (proved there against the real bodies; used here as assumptions): %s ...'
+                               % (un, len(names), src_unit, ', '.join(sorted(set(names))[:12])))
             # failures attributed to this property
             my_fail = []
             for fl in cl['failures']:
